@@ -380,13 +380,27 @@ func (e *Exception) writeShortStack(b *bytes.Buffer) {
 	}
 }
 
+// valString converts the thrown value to a string. For objects this runs script code (toString / valueOf)
+// which may itself throw; that must not turn Error() or String() into a Go panic.
+func (e *Exception) valString() (s string) {
+	if obj, ok := e.val.(*Object); ok && obj.runtime != nil {
+		if ex := obj.runtime.vm.try(func() {
+			s = obj.String()
+		}); ex != nil {
+			s = "[object " + obj.ClassName() + "]"
+		}
+		return
+	}
+	return e.val.String()
+}
+
 func (e *Exception) String() string {
 	if e == nil {
 		return "<nil>"
 	}
 	var b bytes.Buffer
 	if e.val != nil {
-		b.WriteString(e.val.String())
+		b.WriteString(e.valString())
 		b.WriteByte('\n')
 	}
 	e.writeFullStack(&b)
@@ -399,7 +413,7 @@ func (e *Exception) Error() string {
 	}
 	var b bytes.Buffer
 	if e.val != nil {
-		b.WriteString(e.val.String())
+		b.WriteString(e.valString())
 	}
 	e.writeShortStack(&b)
 	return b.String()
